@@ -639,6 +639,12 @@ fn spawn_async_ao_list_in_task'''),
         ('array-keys-not-quoted', 'brush-core/src/commands.rs', "                                s.push_str(&escape::quote_if_needed(\n                                    key.to_string().as_str(),\n                                    escape::QuoteMode::SingleQuote,\n                                ));", "                                s.push_str(key.to_string().as_str());"),
         ('elements-not-separated', 'brush-core/src/commands.rs', "                            if i > 0 {\n                                s.push(' ');\n                            }", "                            if i > 1 {\n                                s.push(' ');\n                            }"),
     ],
+    'U18b': [
+        ('job-wait-ends-after-its-first-finished-task', 'brush-core/src/jobs.rs', "                    result = execution_result;\n                    self.tasks.pop_back();\n", "                    result = execution_result;\n                    self.tasks.pop_back();\n                    break;\n"),
+        ('job-wait-keeps-the-finished-task', 'brush-core/src/jobs.rs', "                    result = execution_result;\n                    self.tasks.pop_back();\n", "                    result = execution_result;\n"),
+        ('poll-done-reports-a-result-while-tasks-remain', 'brush-core/src/jobs.rs', "                None => {\n                    return Ok(None);\n                }", "                None => {\n                    return Ok(result);\n                }"),
+        ('stopped-job-marked-done', 'brush-core/src/jobs.rs', "                    self.state = JobState::Stopped;\n                    return Ok(ExecutionResult::stopped());", "                    self.state = JobState::Done;\n                    return Ok(ExecutionResult::stopped());"),
+    ],
     'U24b': [
         ('token-cut-one-byte-past-the-delimiter', 'brush-core/src/completion.rs', "            if word_is_delimiters {\n                if let Some(start) = word_start {\n                    tokens.push(CompletionToken {\n                        text: &input[start..i],", "            if word_is_delimiters {\n                if let Some(start) = word_start {\n                    tokens.push(CompletionToken {\n                        text: &input[start..i + 1],"),
         ('token-start-reported-as-its-end', 'brush-core/src/completion.rs', "        tokens.push(CompletionToken {\n            text: &input[start..],\n            start,\n        });", "        tokens.push(CompletionToken {\n            text: &input[start..],\n            start: input.len(),\n        });"),
